@@ -285,6 +285,45 @@ empty @is_you(int a, int b) {
 }'''.replace('%%', '%'), [[a, b] for a in (0, 4, 6) for b in (1, 5, 6)]),
 ]
 
+TEMPLATES += [
+    # values whose lowering has internal joins (normalisation, comparisons as values, and/or) feeding a later defeat: the
+    # defeat must not be avertable by taking the other side of a join inside the expression code
+    ('joined_values_then_defeat', '''empty @is_you(int a, int b) {
+  try { bool s = a is bool; write(s); !truth_is_defeat(s == true); write('n'); } %(kind)s { write('h'); }
+  try { int c = 0; c += (a is bool) is int; c += (b is bool) is int; write(c); !truth_is_defeat(c == 1); write('m'); } %(kind)s { write('H'); }
+  try { bool lt = a < b; bool e = a == b; int v = (lt is int) * 2 + (e is int); write(v); !truth_is_defeat(v == 2); write('k'); } %(kind)s { write('K'); }
+  try { bool c = (a > 0) and (b > 0); bool d = (a > 0) or (b > 0); write(c); write(d); !truth_is_defeat(c != d); write('j'); } %(kind)s { write('J'); }
+  try { byte q = a is byte; bool z = q is bool; bool y = not (b is bool); write(z); !truth_is_defeat(z == y); write('z'); } %(kind)s { write('Z'); }
+  try { int w = ((a is bool) is int) + (((a is byte) is bool) is int) * 2; write(w); !truth_is_defeat(w is bool); write('w'); } %(kind)s { write('W'); }
+  write('>');
+}''', [[a, b] for a in (0, 1, 2, 5, 256) for b in (0, 1, 3)]),
+]
+
+# emission order: hidc emits functions in order of first reference, and several per-function decisions of the code
+# generator (variable defeat word, handler epilogues) are made while emitting.  The same three pieces in every order,
+# so that every function is at some point emitted first / right after a defeat function / before the first stop-try.
+def _emission_order():
+    import itertools
+    out = []
+    pieces = {'u': "try { !chk(0); write('a'); } undo { write('A'); }",
+              'c': "@twice(x);",
+              's': "try { !chk(x); write('b'); } %(kind)s { write('B'); }"}
+    for k1, k2 in (('stop', 'undo'), ('undo', 'stop'), ('stop', 'stop')):
+        for perm in itertools.permutations('ucs'):
+            body = ' '.join(pieces[p] for p in perm)
+            src = '''empty !chk(int x) { !truth_is_defeat(x > 2); }
+empty @twice(int x) {
+  try { !chk(x); write('1'); } %s { write('S'); }
+  try { !chk(x); write('2'); } %s { write('T'); }
+  try { !chk(x - 5); write('3'); } %s { write('V'); }
+}
+empty @is_you(int x) { %s write('>'); }''' % (k1, k2, k1, body)
+            out.append(('emit_order_%s_%s%s' % (''.join(perm), k1[0], k2[0]), src, [[1], [7], [9]]))
+    return out
+
+
+TEMPLATES += _emission_order()
+
 SCOPE_TEMPLATES = [
     ('loop_inside_try', '''int x = 0;
 empty !f() { !truth_is_defeat(x == 1); }
@@ -581,6 +620,17 @@ empty all_is_win(int code) { write("W:"); write(code); }
 int after(int x) { if (x > 1) { all_is_broken("big"); } else { all_is_win(x); } write('t'); return x + 1; }
 empty @is_you(int x) { write(after(x)); all_is_broken("late"); write("done"); if (x == 9) { all_is_broken(); } write('!'); }''',
      [['0'], ['5'], ['9']]),
+    ('terminal_name_flavours', '''int score = 0;
+empty @all_is_win() { score += 100; write('b'); }
+empty !all_is_broken() { !truth_is_defeat(score > 150); write('k'); }
+empty !all_is_win() { write('w'); }
+empty @all_is_broken() { write('B'); }
+int @play(int x) { if (x > 3) { @all_is_win(); write('a'); } return score + x; }
+empty @celebrate() { write('c'); @all_is_win(); }
+empty !walk() { write('v'); !all_is_win(); }
+empty @is_you(int x) { write(@play(x)); if (x == 2 or x == 9) { @celebrate(); @all_is_broken(); write('d'); }
+  try { !all_is_broken(); !walk(); write('n'); } %(kind)s { write('u'); } write('e'); if (x == 7) { all_is_win(); } write('!'); }''',
+     [['1'], ['2'], ['5'], ['7'], ['9']]),
     ('nested_terminal', '''int pick(int x) { if (x == 0) { return 1; } else { if (x == 1) { all_is_win(); } else { while (true) { if (x == 2) { return 3; } x -= 1; } } } }
 int pick2(int x) { for (;;) { if (x > 3) { all_is_broken(); } if (x == 3) { break; } x += 1; } return x; }
 empty @is_you(int x) { write(pick2(x)); write(pick(x)); write('>'); }''', [['0'], ['1'], ['2'], ['5'], ['3']]),
